@@ -243,8 +243,8 @@ func c16(ctx *core.Ctx) {
 	defer restful.DefaultRequestContentType("")
 	defer func() { restful.PrettyPrintResponses = true }()
 	ctSpell := map[string][]string{
-		"json": {"application/json", "application/json; charset=utf-8", "application/json;charset=UTF-8", "application/json ; charset=utf-8", " application/json", "application/json;q=1"},
-		"xml":  {"application/xml", "application/xml; charset=utf-8", "application/xml;charset=UTF-8", "application/xml ; charset=utf-8", " application/xml"},
+		"json": {"application/json", "application/json; charset=utf-8", "application/json;charset=UTF-8", "application/json ; charset=utf-8", " application/json", "application/json;q=1", "application/json; charset=\"utf-8\""},
+		"xml":  {"application/xml", "application/xml; charset=utf-8", "application/xml;charset=UTF-8", "application/xml ; charset=utf-8", " application/xml", "application/xml; charset=\"UTF-8\""},
 	}
 	hists := ctx.N(60, 2500)
 	for hi := 0; hi < hists; hi++ {
